@@ -6,13 +6,14 @@ import random
 
 from .common import h32, VERIF_DIR
 
-E1_PROPS = ('C01', 'C02', 'C03', 'C04', 'C05', 'C06', 'C07', 'C09', 'C12', 'C18', 'C20')
+E1_PROPS = ('C01', 'C02', 'C03', 'C04', 'C05', 'C06', 'C07', 'C09', 'C10', 'C12', 'C18', 'C20')
 
 # violations of these other monitors count for the property when they occur in its scenarios
 ALSO = {
     'C06': ('C01', 'C02', 'C04', 'C05'),     # rebuilt state / acknowledged commands / convergence after restarts
     'C07': (),
     'C09': ('C01', 'C05'),                   # state after install = prefix; lagging follower converges
+    'C10': ('C01', 'C02', 'C03', 'C04', 'C05'),   # membership changes preserve C01-C04 (and the cluster still converges)
     'C12': ('C01', 'C02', 'C05'),            # no stall, no split
     'C18': ('C02', 'C04', 'C05'),
 }
@@ -26,6 +27,7 @@ CASES = {
     'C06': {'quick': 1200, 'thorough': 16000},
     'C07': {'quick': 1600, 'thorough': 24000},
     'C09': {'quick': 1000, 'thorough': 14000},
+    'C10': {'quick': 1400, 'thorough': 20000},
     'C12': {'quick': 1200, 'thorough': 16000},
     'C18': {'quick': 1400, 'thorough': 20000},
     'C20': {'quick': 1600, 'thorough': 24000},
@@ -45,6 +47,8 @@ DECIDING = {
     'C07': ('vote_granted_then_killed', 'restart_in_election', 'restarted_voter_votes'),
     'C09': ('snapshot_load', 'snapshot_received_completely', 'snapshot_transfer_restarted', 'kill_during_dump_write',
             'snapshot_taken_with_consumers'),
+    'C10': ('request_while_change_uncommitted', 'membership_entry_truncated', 'leader_with_uncommitted_change', 'shrunk_to_one',
+            'membership_change_committed', 'removed_node_shut_down'),
     'C12': ('apply_raised', 'raise_on_follower', 'raise_replayed_after_restart'),
     'C18': ('ro_join', 'ro_leave', 'ro_submit', 'voters_without_majority_observers_connected'),
     'C20': ('leader_silent_half_timeout', 'leader_stepdown', 'quorum_flag_false', 'leader_cut_off'),
@@ -159,6 +163,21 @@ def gen_cfg(prop, tier, seed, i):
             w['restart'] = 1.0
         cfg['ext'] = ['snapshot']
         cfg['steps'] = pick(r, [800, 2000, 4000], [2, 3, 2])
+    if prop == 'C10':
+        cfg['n'] = pick(r, [1, 2, 3, 4], [1, 2, 3, 2])
+        cfg['journal'] = 'memory'
+        cfg['compact_min'] = pick(r, [5, 20, 10 ** 9], [1, 1, 2])
+        w['member'] = pick(r, [0.3, 0.8, 2.0])
+        w['operator'] = pick(r, [0.5, 1.5])
+        w['partition'] = w['partition'] * pick(r, [0, 0.5, 1])
+        w['submit'] = min(w['submit'], 6)
+        cfg['batch'] = pick(r, [200, 4096, 65536])
+        cfg['chunk'] = pick(r, [50, 65536])
+        cfg['queue'] = 100000
+        cfg.pop('consumers', None)
+        cfg['sim'] = 'member'
+        cfg['readd_anytime'] = False    # literal-discipline re-adds (listed hazard) are not generated, see DESIGN.md
+        cfg['wait_leader'] = r.random() < 0.3
     if prop == 'C12':
         cfg['raising'] = True
         cfg['consumers'] = ['list', 'set']
@@ -183,7 +202,11 @@ def summarize_cfg(cfg):
 
 def make_sim(prop, cfg, seed):
     from .clustersim import Sim
-    sim = Sim(cfg, seed)
+    if cfg.get('sim') == 'member':
+        from .membership import MemberSim
+        sim = MemberSim(cfg, seed)
+    else:
+        sim = Sim(cfg, seed)
     for name in cfg.get('ext', []):
         from . import ext_monitors as X
         cls = {'recovery': X.RecoveryMonitor, 'snapshot': X.SnapshotMonitor, 'args': X.ArgsMonitor}[name]
@@ -223,6 +246,8 @@ def result_of(prop, sim, cfg, run_seed, case):
     res['sit'] = sit
     for v in sim.violations:
         rec = v.record()
+        if getattr(sim, 'readd_hazard', False):
+            rec['facts'] = dict(rec.get('facts', {}), readded_before_all_applied_removal=True)
         if v.prop == prop or v.prop in ALSO.get(prop, ()):
             if v.prop != prop:
                 rec['facts'] = dict(rec.get('facts', {}), via=v.prop)
@@ -270,7 +295,13 @@ def replay(prop, path):
     want = doc['violation']
     for v in sim.violations:
         print('replayed: %s/%s %s' % (v.prop, v.kind, v.msg))
-        if v.prop == want['prop'] and v.kind == want['kind']:
+        if (v.prop == want['prop'] and v.kind == want['kind']) or want['kind'] == '%s_%s' % (v.prop, v.kind):
+            rec = v.record()
+            if v.prop != want['prop']:
+                rec['facts'] = dict(rec.get('facts', {}), via=v.prop)
+                rec['kind'] = '%s_%s' % (v.prop, rec['kind'])
+                rec['prop'] = want['prop']
+            print('REPLAYED ' + json.dumps(rec, default=str))
             for t in list(sim.trace)[-40:]:
                 print('   ', t)
             print('VIOLATION property=%s replay=%s' % (prop, path))
